@@ -6,6 +6,7 @@ import Driver.Validators
 import Driver.History
 import Driver.Config
 import Driver.ProjectOracles
+import Driver.Robust
 /-! `tgdriver`: reads one JSON request per line on stdin, answers one JSON line per request. -/
 open Lean Drv
 
@@ -25,6 +26,7 @@ def dispatch (op : String) (inp imp : Json) : Except String Json :=
   | "configResolve" => opConfigResolve inp imp
   | "shape" => opShape inp imp
   | "project" => opProject inp imp
+  | "robustSrc" => opRobust inp imp
   | _ => .error s!"unknown op {op}"
 
 def handleLine (line : String) : String :=
